@@ -92,6 +92,7 @@ type Scenario struct {
 	Engine   string            `json:"engine"`
 	Seed     uint64            `json:"seed"`
 	Tier     string            `json:"tier"`
+	Idx      int               `json:"idx,omitempty"` // run index within the batch (informational)
 	World    json.RawMessage   `json:"world"`
 	Ops      []json.RawMessage `json:"ops"`
 	// Expect is filled in replay files: the violation the file reproduces.
